@@ -248,7 +248,9 @@ def case_strategy():
     import gen
     import models
 
-    outcome = st.one_of(st.just(["tag"]), st.sampled_from(["E0", "E1", "E2", "E3"]).map(lambda e: ["raise", e]))
+    instant = st.one_of(st.just(["tag"]), st.sampled_from(["E0", "E1", "E2", "E3"]).map(lambda e: ["raise", e]))
+    # (attempts that take time: the delay counts from the END of an attempt)
+    outcome = st.one_of(instant, instant, st.tuples(st.sampled_from([0.25, 0.5]), instant).map(lambda t: ["vsleep", t[0], t[1]]))
     exc_policy = st.builds(
         lambda m, s, e, ms, b: {"type": "exc", "max_attempts": m, "sleep": s, "exponent": e, "max_sleep": ms, "base": b},
         st.integers(1, 6), st.sampled_from([0, 0.25, 0.5, 1.0, 2.0, 4.0]), st.sampled_from([0.5, 1.0, 1.5, 2.0, 3.0]),
@@ -281,7 +283,10 @@ def case_strategy():
             sampler.append(["state", draw(st.sampled_from(names))])
         threads.append(sampler)
         prog = {"setup": [["build", "ex", stack]], "threads": threads, "settle": total + 2.0, "final": [["state", n] for n in names]}
-        return {"prog": prog, "tape": draw(gen.tapes(6)), "clock": "exact", "scarce": basekind == "pool-1" and nsub > 1}
+        timed = any(b[0] == "vsleep" for t in threads for op in t if op[0] == "submit" for b in op[3]["script"])
+        # (a sync base runs callables on the retry thread itself: an attempt that takes time holds up the other submissions)
+        return {"prog": prog, "tape": draw(gen.tapes(6)), "clock": "exact",
+                "scarce": nsub > 1 and (basekind == "pool-1" or (basekind == "sync" and timed))}
 
     return cases()
 
